@@ -92,6 +92,7 @@ func checkC14(c *Ctx) (int, error) {
 			cs.ID = fmt.Sprintf("%s-k%d", b.ID, k)
 			cs.FailAt = k
 			cs.Partial = k%2 == 0
+			cs.ErrKind = errKinds[(k/2)%len(errKinds)]
 			cases = append(cases, &cs)
 			c.ev.nontrivial(histString(cs.Ops) + "|" + cs.Tag + fmt.Sprint(k))
 		}
